@@ -24,17 +24,17 @@ def perm_from_obs(lines, inst):
 
 def run_case(args):
     d, k, inst = args
-    cpath = os.path.join(d, "c%d.json" % k)
+    cpath = os.path.join(d, "c%s.json" % k)
     with open(cpath, "w") as f:
         json.dump({"instance": inst}, f)
-    hout = os.path.join(d, "c%d.impl" % k)
+    hout = os.path.join(d, "c%s.impl" % k)
     st = lib.run_harness("net", cpath, hout)
     impl = lib.read_lines(hout)
     perm = lib.perm_of(impl, inst)
-    mpath = os.path.join(d, "c%d.min" % k)
+    mpath = os.path.join(d, "c%s.min" % k)
     with open(mpath, "w") as f:
         f.write(" ".join(str(x) for x in instgen.encode(inst, perm)) + "\n")
-    mout = os.path.join(d, "c%d.model" % k)
+    mout = os.path.join(d, "c%s.model" % k)
     st2 = lib.run_driver("net", mpath, mout)
     model = lib.read_lines(mout)
     return {"k": k, "inst": inst, "hstatus": st, "dstatus": st2, "impl": impl, "model": model}
@@ -108,6 +108,80 @@ def check_impl(inst, impl):
     return bad
 
 
+def diff_to_failure(inst, impl, model):
+    """Differences on observations whose model value is proved to equal the documented value:
+    reach lines (C17_can_reach_iff: the model's can_reach is the documented timing rule), node lines
+    (C17_load_nodes: the model's nodes are the instance's records)."""
+    out = []
+    key = lambda l: " ".join(l.split()[:2])
+    mm = {key(l): l for l in model}
+    for l in impl:
+        p = l.split()
+        if p[0] in ("reach", "node") and key(l) in mm and mm[key(l)] != l:
+            if p[0] == "reach":
+                a, b = set(p[3:]), set(mm[key(l)].split()[3:])
+                out.append(("can-reach-not-the-documented-rule",
+                            "node %s: implementation can_reach to %s, documented rule (model, theorem C17_can_reach_iff) "
+                            "to %s; extra=%s missing=%s" % (p[1], sorted(a), sorted(b), sorted(a - b), sorted(b - a))))
+            else:
+                out.append(("node-not-the-instance-record",
+                            "implementation [%s], instance record (model, theorem C17_load_nodes) [%s]" % (l, mm[key(l)])))
+    return out
+
+
+def search_witness(d, k, inst, impl, model):
+    """The correspondence differs on a timing getter (pair lines) but not on can_reach: look for a concrete input
+    on which the property itself fails, by moving the second activity into the window between the two minimal
+    durations and re-running implementation and model. Returns (what, detail, instance) or None."""
+    key = lambda l: " ".join(l.split()[:3])
+    mm = {key(l): l for l in model if l.startswith("pair ")}
+    nodes = {}
+    for l in impl:
+        if l.startswith("node "):
+            q = l.split()
+            nodes[q[1]] = dict(x.split("=") for x in q[2:])
+    tried = 0
+    for l in impl:
+        if not l.startswith("pair ") or key(l) not in mm or mm[key(l)] == l:
+            continue
+        q = l.split()
+        a, b = q[1], q[2]
+        kv_i = dict(x.split("=") for x in q[3:])
+        kv_m = dict(x.split("=") for x in mm[key(l)].split()[3:])
+        if kv_i["mindur"] == kv_m["mindur"] or "INF" in (kv_i["mindur"], kv_m["mindur"]):
+            continue
+        if a not in nodes or b not in nodes or nodes[a]["kind"] not in "VM" or nodes[b]["kind"] not in "VM":
+            continue
+        lo = min(int(kv_i["mindur"]), int(kv_m["mindur"]))
+        delta = int(nodes[a]["end"]) + lo - int(nodes[b]["start"])
+        inst2 = json.loads(json.dumps(inst))
+        moved = False
+        if nodes[b]["kind"] == "M":
+            for sl in inst2.get("maintenanceSlots") or []:
+                if instgen.from_iso(sl["start"]) == int(nodes[b]["start"]) and sl["location"] == "L%s" % nodes[b]["sloc"] and not moved:
+                    sl["start"] = instgen.iso(instgen.from_iso(sl["start"]) + delta)
+                    sl["end"] = instgen.iso(instgen.from_iso(sl["end"]) + delta)
+                    moved = True
+        else:
+            for dep in inst2["departures"]:
+                for sg in dep["segments"]:
+                    if instgen.from_iso(sg["departure"]) == int(nodes[b]["start"]) and not moved:
+                        sg["departure"] = instgen.iso(instgen.from_iso(sg["departure"]) + delta)
+                        moved = True
+        if not moved or int(nodes[b]["start"]) + delta < 0:
+            continue
+        tried += 1
+        r2 = run_case((d, "w%s_%d" % (k, tried), inst2))
+        if r2["hstatus"] == "OK" and r2["dstatus"] == "OK":
+            f = diff_to_failure(inst2, r2["impl"], r2["model"])
+            f = [x for x in f if x[0] == "can-reach-not-the-documented-rule"]
+            if f:
+                return (f[0][0], f[0][1] + " [instance found by moving %s to %d s after the end of %s]" % (b, lo, a), inst2)
+        if tried >= 6:
+            break
+    return None
+
+
 def features(inst, impl):
     f = set()
     if inst.get("depots") is None:
@@ -147,8 +221,18 @@ def main(tier, seed):
     d = lib.casedir(PID)
     insts = lib.load_corpus(PID) + [instgen.gen_instance(rng) for _ in range(n)]
     results = lib.pmap(run_case, [(d, k, inst) for k, inst in enumerate(insts)])
+    # correspondence differs somewhere but no observation of the property differs: search for a failing input
+    extra = []
+    for r in results:
+        if r["hstatus"] == "OK" and r["dstatus"] == "OK" and not diff_to_failure(r["inst"], r["impl"], r["model"]) \
+                and any(l.startswith("pair ") for l in set(r["impl"]) - set(r["model"])):
+            w = search_witness(d, r["k"], r["inst"], r["impl"], r["model"])
+            if w:
+                extra.append(w)
+                break
     return lib.conclude_diff(PID, tier, seed, t0, proof, results, check_impl, features,
                              strip_model_prefixes=("wf ", "maxvehicles ", "ovf ", "netok ", "valid "),
                              model_flags={"wf true": True, "ovf true": True, "netok true": True, "valid true": True},
+                             diff_to_failure=diff_to_failure, extra_violations_inst=extra,
                              what="Network getters after load (nodes, depots, can_reach matrix, successors, "
                                   "predecessors, required vehicles, limits, depot orderings, timing getters)")
